@@ -113,6 +113,7 @@ def build_stp(QC):
                         return ast.copy_location(ast.Name(id=fname + '.' + node.id, ctx=node.ctx), node)
                     return node
             body = [Ren().visit(s) for s in body]
+        c.prescan(body)
         entry = c.block(body, END, ctx)
         sysm.comps[th] = dict(entry=entry, END=END, ENDX=ENDX)
         if fname == '$main':
@@ -188,6 +189,7 @@ def build_lpm(backend, QC, N):
     c.declare('$sub', 'int', 0)
     c.declare('$deq', 'int', 0)
     c.declare('$started', 'int', 0)
+    c.prescan(main2)
     entry = c.block(main2, END, ctx)
     sysm = System()
     sysm.name = f'lazy_parallel_map[{backend}]'
@@ -365,6 +367,9 @@ def encode(sysm, bd, mode):
         s.add(consts['$close_at'] == -1, no_fail, main_done(last), z3.Or(last['$delivered'] != n, last['pc.$main'] != cm['END']))
     elif mode == 'readahead_pulled':
         s.add(z3.Or([S['$pulled'] - S['$delivered'] > B + 2 for S in St]))
+    elif mode == 'readahead_tight':
+        # vacuity guard of the step-bounded read-ahead claim: the bound B+2 is actually reached within K steps (must be sat)
+        s.add(z3.Or([S['$pulled'] - S['$delivered'] == B + 2 for S in St]))
     elif mode == 'readahead_started':
         if not pool:
             s.add(z3.BoolVal(False))
